@@ -8,6 +8,7 @@
 import XzVerif.Lemmas.XzIoStep
 import XzVerif.Lemmas.XzIoQ4
 import XzVerif.Lemmas.XzIoQ5
+import XzVerif.Lemmas.XzIoQ2c
 
 namespace XzVerif.C17
 open XzVerif.XzIo
@@ -70,5 +71,134 @@ theorem only_own_target_unlinked (c : Cfg α) (dstExists : Bool) (n : Nat) (pre 
     | nil => intro e; subst e; exact hg.1 rfl
     | cons p ps ih => intro e; subst e; exact ih _ hg.2 rfl
   exact key _ q pre h
+
+/-- `unlink(source)` appears in a trace only after, in this order (oldest first): futimens (end of io_copy_attrs),
+    fsync(target) ok, fsync(directory) ok (both only when syncing is on), close(target) ok — and then the target holds
+    the complete coder output, the run was successful, and none of -k, -c, --test, stdin was in force.
+    (`SubPat` reads newest first: the head of the pattern is the most recent event.) -/
+theorem unlink_src_last (c : Cfg α) (hsp : SparseOk c.zero c.ops) (dstExists : Bool) (n : Nat)
+    (h : ∃ e ∈ (run c dstExists n).trace, e.call = .unlink .src) :
+    let s := run c dstExists n
+    SubPat (isUnlinkSrc :: isCloseDstOk ::
+        (if c.o.syncEff then [isFsyncDirOk, isFsyncDstOk, isFutimens] else [isFutimens])) s.trace = true ∧
+      content s.fs.own = payload c.ops ∧ s.fs.ownLinked = true ∧ s.success = true ∧
+      c.o.keepEff = false ∧ c.o.stdin = false := by
+  intro s
+  have i := inv_run hsp dstExists n
+  have q := q2_runN hsp n _ (inv_start hsp dstExists 0 0) (q2_start (c := c) dstExists 0 0)
+  obtain ⟨hp, hs, hk, hi, hpat⟩ := q.srcUnl h
+  have fd := fileDest_of_noKeep hk hi
+  have hg := i.pcinv
+  have hp' : s.pc = .done := hp
+  simp only [PcInv] at hg
+  have hg' : Good c s := by
+    have : PcInv c s := i.pcinv
+    unfold PcInv at this
+    rw [hp'] at this
+    exact this hs fd.1 fd.2
+  exact ⟨hpat, hg'.2.1, hg'.1, hs, hk, hi⟩
+
+/-- A run that has ended with success (coding loop finished, every call of io_close that matters succeeded) and writes
+    to a file has produced exactly the coder output: nothing lost, nothing duplicated, whatever EINTR / EAGAIN /
+    short counts were injected on the way (`c.fault` is arbitrary), and it is durable when syncing is on. -/
+theorem success_complete (c : Cfg α) (hsp : SparseOk c.zero c.ops) (dstExists : Bool) (n : Nat)
+    (hd : (run c dstExists n).pc = .done) (hs : (run c dstExists n).success = true)
+    (hf : c.o.destStdout = false) (ht : c.o.mode ≠ .test) :
+    let s := run c dstExists n
+    s.fs.ownLinked = true ∧ content s.fs.own = payload c.ops ∧ (c.o.syncEff = true → s.fs.durable = true) := by
+  intro s
+  have : PcInv c s := (inv_run hsp dstExists n).pcinv
+  unfold PcInv at this
+  rw [show s.pc = .done from hd] at this
+  exact this hs hf ht
+
+/-- FULL STATEMENT of `failure_cleanup` (not yet proved in this generality): a run that ends without success keeps the
+    source, has unlinked the target it created (unless a call of the clean-up itself was made to fail, or another
+    process renamed the target), and ends with a non-zero exit status, by the signal, or after an EPIPE that came
+    without SIGPIPE. -/
+def failure_cleanup_statement : Prop :=
+  ∀ (α : Type) (c : Cfg α), SparseOk c.zero c.ops → ∀ (dstExists : Bool) (n : Nat),
+    let s := run c dstExists n
+    s.pc = .done → s.success = false →
+      s.fs.srcLinked = true ∧
+      (c.moveAt = none → s.fs.ownLinked = true →
+        ∃ e ∈ s.trace, (e.call = .fstat .dst ∨ e.call = .stat .dst c.o.force ∨ e.call = .unlink .dst) ∧ ∃ k, e.res = .err k) ∧
+      (s.exitSt ≠ 0 ∨ s.userAbort = true ∨ ∃ m, ⟨.write m, .err EPIPE⟩ ∈ s.trace)
+
+/-- Proved part of `failure_cleanup`: at every prefix of every run, as long as the run has not succeeded the source
+    inode exists and no `unlink(source)` has been attempted. What is missing: the clauses about the removal of the
+    incomplete target and about the exit status (both are checked on the real program for every fault position by the
+    direct oracle and by the end-state comparison of tools/props/c17.py). -/
+theorem failure_cleanup_partial (c : Cfg α) (hsp : SparseOk c.zero c.ops) (dstExists : Bool) (n : Nat)
+    (hs : (run c dstExists n).success = false) :
+    (run c dstExists n).fs.srcLinked = true ∧ ∀ e ∈ (run c dstExists n).trace, e.call ≠ .unlink .src := by
+  have i := inv_run hsp dstExists n
+  have q := q2_runN hsp n _ (inv_start hsp dstExists 0 0) (q2_start (c := c) dstExists 0 0)
+  constructor
+  · cases h : (run c dstExists n).fs.srcLinked with
+    | true => rfl
+    | false => have := (i.srcGone h).2.1; rw [hs] at this; exact absurd this (by simp)
+  · intro e he hc
+    have h1 : (run c dstExists n).success = true := (q.srcUnl ⟨e, he, hc⟩).2.1
+    rw [hs] at h1; exact absurd h1 (by simp)
+
+/-- FULL STATEMENT of `eintr_eagain_retry` (not yet proved in this generality): if every failed call in the trace is an
+    EINTR/EAGAIN on read/write/poll (or the ENOENT of the `--force` unlink), no signal arrived, the input is valid and
+    the source acceptable, then a finished run has succeeded with the unchanged exit status. -/
+def eintr_eagain_retry_statement : Prop :=
+  ∀ (α : Type) (c : Cfg α), SparseOk c.zero c.ops → ∀ (dstExists : Bool) (n : Nat),
+    let s := run c dstExists n
+    (∀ e ∈ s.trace, ∀ k, e.res = .err k →
+      ((k = EINTR ∨ k = EAGAIN) ∧ ((∃ m, e.call = .read m) ∨ (∃ m, e.call = .write m) ∨ (∃ t, e.call = .poll t))) ∨
+      (e.call = .unlinkForce ∧ k = ENOENT)) →
+    s.userAbort = false → c.init = .ok → c.fin = .ok → c.srcSkip = false → s.pc = .done →
+      s.success = true ∧ s.exitSt = 0
+
+/-- Proved part of `eintr_eagain_retry`: the data plane.  However many EINTR / EAGAIN / short counts hit the reads and
+    writes, a finished successful run has written each payload byte exactly once and in order (`success_complete`),
+    and while the run is in progress nothing has been lost yet: what is on disk, the hole being skipped, the rest of the
+    buffer in flight and the requests still to come always add up to the whole output (`LayoutEq` in the invariant).
+    What is missing: that such faults alone never make the run fail (checked on the real program by the storm plans). -/
+theorem eintr_eagain_retry_partial (c : Cfg α) (hsp : SparseOk c.zero c.ops) (dstExists : Bool) (n : Nat)
+    (hw : (run c dstExists n).pc = .write ∨ (run c dstExists n).pc = .writePoll) :
+    let s := run c dstExists n
+    s.destOpen = true →
+      content s.fs.own ++ List.replicate (s.hole + s.pending) c.zero ++ s.wr ++ payload s.ops = payload c.ops := by
+  intro s
+  have : PcInv c s := (inv_run hsp dstExists n).pcinv
+  unfold PcInv at this
+  rcases hw with hw | hw <;> rw [show s.pc = _ from hw] at this <;> exact this.2.2.2.1
+
+/-! ### non-vacuity: concrete runs of the model -/
+
+/-- compress 3 bytes, output 2+1 bytes, no fault: 19 system calls, source removed, target complete and durable -/
+def exCfg : Cfg Nat :=
+  { o := {}, srcSize := 3, ops := [.tick, .read 8192, .tick, .write [1, 2] false, .write [3] false], fin := .ok,
+    fault := fun _ => none, zero := 0 }
+
+example : (run exCfg false 30).pc = .done ∧ (run exCfg false 30).fs.srcLinked = false ∧
+    content (run exCfg false 30).fs.own = [1, 2, 3] ∧ (run exCfg false 30).fs.durable = true ∧
+    (run exCfg false 30).k = 19 := by decide +kernel
+
+/-- the same run with close(target) failing (call 16): target unlinked, source kept, exit status 1 -/
+example : let c := { exCfg with fault := fun k => if k = 16 then some (.err 5) else none }
+    (run c false 30).pc = .done ∧ (run c false 30).fs.srcLinked = true ∧ (run c false 30).fs.ownLinked = false ∧
+    (run c false 30).exitSt = 1 ∧ (run c false 30).success = false := by decide +kernel
+
+/-- a signal before the first read: nothing is converted, the created target is removed, the source is kept -/
+example : let c := { exCfg with signalAt := some 6 }
+    (run c false 30).pc = .done ∧ (run c false 30).fs.srcLinked = true ∧ (run c false 30).fs.ownLinked = false ∧
+    (run c false 30).userAbort = true := by decide +kernel
+
+/-- an existing target without --force: `unlink source` never happens and the old target stays -/
+example : (run exCfg true 30).pc = .done ∧ (run exCfg true 30).fs.preLinked = true ∧
+    (run exCfg true 30).fs.srcLinked = true ∧ (run exCfg true 30).exitSt = 1 := by decide +kernel
+
+/-- the hypotheses of `unlink_src_last` are satisfiable: the fault-free run does unlink the source -/
+example : ∃ e ∈ (run exCfg false 30).trace, e.call = .unlink .src := by decide +kernel
+
+/-- EINTR on the write, then a short count: the target still holds exactly the output -/
+example : let c := { exCfg with fault := fun k => if k = 8 then some (.err EINTR) else if k = 9 then some (.short 1) else none }
+    (run c false 40).pc = .done ∧ content (run c false 40).fs.own = [1, 2, 3] ∧ (run c false 40).success = true := by decide +kernel
 
 end XzVerif.C17
